@@ -173,8 +173,23 @@ class TemplateGen:
         unclosed = self.allow_unclosed and r.random() < 0.3
         if unclosed:
             self.features['unclosed'] += 1
-        inner = lambda n: [x for _ in range(n) for x in ([self.elem()] if r.random() < 0.85 or depth >= self.max_depth
-                                                          else self.replication(depth))]
+        self._op_nest = getattr(self, '_op_nest', 0)
+
+        def inner(n):
+            out = []
+            for _ in range(n):
+                q = r.random()
+                if q < 0.15 and self._op_nest < 2:
+                    # operators nested inside operators (e.g. 203 definitions used under 207, 204 under 201)
+                    self._op_nest += 1
+                    self.features['op-nested'] += 1
+                    out += self.operator_construct(depth)
+                    self._op_nest -= 1
+                elif q < 0.3 and depth < self.max_depth:
+                    out += self.replication(depth)
+                else:
+                    out.append(self.elem())
+            return out
         if k == '201':
             y = r.choice([129, 130, 132, 136, 127, 126, 124, 140])
             return [201000 + y] + inner(r.choice([1, 2, 3])) + ([] if unclosed else [201000])
@@ -194,6 +209,12 @@ class TemplateGen:
             es = [r.choice(p.numeric) for _ in range(n)]
             y = r.choice([8, 12, 16, 20, 24])
             uses = [r.choice(es + [self.elem()]) for _ in range(r.choice([1, 2, 3]))]
+            if r.random() < 0.4:
+                # the redefined elements used under a width/scale/reference modifier
+                op = r.choice([(207000 + r.choice([1, 2, 3]), 207000), (201000 + r.choice([129, 132, 126]), 201000),
+                               (202000 + r.choice([129, 130, 127]), 202000)])
+                uses = [op[0]] + [r.choice(es) for _ in range(r.choice([1, 2]))] + [op[1]] + uses
+                self.features['op-203-under-modifier'] += 1
             tail = [] if unclosed else [203000]
             if r.random() < 0.3:
                 tail = tail + [r.choice(es)]           # used again after cancellation
